@@ -16,7 +16,7 @@ ENGINE = "simnet"
 LEVEL = "exploration"
 TECHNIQUE = "deterministic network simulation with a scripted proxy (CONNECT replies, closes) and TLS-in-TLS in memory; what the proxy observer saw vs what the origin observer saw"
 LEVEL_TEXT = (
-    "Seeded (proxy scheme, destination scheme, forwarding opt-in, proxy cert ok/bad, origin cert ok/bad, CONNECT reply 200/403/407/502/garbage/EOF, proxy_headers, request headers, "
+    "Seeded (proxy scheme, destination scheme, forwarding opt-in drawn for every scheme pair, proxy cert ok/bad, origin cert ok/bad, CONNECT reply 200/403/407/502/garbage/EOF, proxy_headers, request headers, "
     "destination host form and port) x sequences of 1-3 requests with the tunnel or proxy connection closed in between; observers at the simulated proxy and inside the tunnel "
     "record every message, SNI and plaintext byte. Sampling."
 )
